@@ -326,7 +326,11 @@ func newAddressRewriteMapper(rules []AddressRewriteRule) (*addressRewriteMapper,
 		if mapErr != nil {
 			return nil, mapErr
 		}
-		maybeMarkEmptyMapping(ruleMapping, added, hasLocalAddr, localIsIPv4, localAddr)
+		// Only a rule without any external address is an intentional "empty" mapping; a rule whose
+		// externals were all excluded by Networks simply does not apply to the remaining family.
+		if len(rule.External) == 0 {
+			maybeMarkEmptyMapping(ruleMapping, added, hasLocalAddr, localIsIPv4, localAddr)
+		}
 
 		if ruleMapping.hasMappings() {
 			mapper.rulesByCandidateType[candidateType] = append(mapper.rulesByCandidateType[candidateType], ruleMapping)
